@@ -179,15 +179,47 @@ pub fn pred_c11_sched(prog: &Program, r: &RunResult) -> String {
 
 /// C10 for gzip writers: the encoder's traffic through the chunk writer under all schedules
 /// (bounded per program), compared with the raw-writer model run on the chunker-level writes.
+/// C08 under thread interleavings ("any interleaving of consumer polls" taken at its widest): a
+/// small slice of the C10 exploration — every producer program of up to two operations plus the
+/// drop, same / fresh wakers, up to one spurious poll — judged on C08's clauses: a clean end
+/// after exactly the accepted bytes, and the end is reached.
+pub fn run_small_for_c08(em: &mut Emit, thorough: bool) {
+    install_hook();
+    let limit = if thorough { 400 } else { 60 };
+    let mut total = 0usize;
+    for cap in [2usize] {
+        for prod in programs(2, false, true, cap) {
+            for policy in [WakerPolicy::Same, WakerPolicy::Fresh] {
+                for spurious in [0usize, 1] {
+                    let prog = Program { cap, prod: prod.clone(), policy, extra_polls: 1, spurious, drop_body_after: None, gz_level: 0 };
+                    let (n, _) = explore(&prog, limit, |r| {
+                        em.case(&sched_line(&prog, r), &sched_out(r), &pred_c10(&prog, r), &format!("sched:{}", class(&prog, r)));
+                    });
+                    total += n;
+                }
+            }
+        }
+    }
+    em.note("sched", &format!("schedules={}", total));
+}
+
+/// C09 under thread interleavings: a slice of the gzip exploration below.
+pub fn run_small_for_c09(em: &mut Emit, thorough: bool) {
+    run_gz_suite_with(em, if thorough { 400 } else { 40 }, &[3usize, 4096], &[1u32, 9]);
+}
+
 pub fn run_gz_suite(em: &mut Emit, thorough: bool) {
+    run_gz_suite_with(em, if thorough { 3000 } else { 120 }, &[3usize, 7, 4096], &[1u32, 6, 9]);
+}
+
+fn run_gz_suite_with(em: &mut Emit, per_prog_limit: usize, caps: &[usize], levels: &[u32]) {
     install_hook();
     let (shard_i, shard_k) = shard();
-    let per_prog_limit = if thorough { 3000 } else { 120 };
     let payloads: [&[u8]; 3] = [b"", b"hello", b"aaaaaaaaaaaaaaaaaaaaaaaaaaaaaaaaaaaaaaaaaaaaaaaaaaaaaaaaaaaaaa"];
     let mut counter = 0usize;
     let mut total = 0usize;
-    for cap in [3usize, 7, 4096] {
-        for level in [1u32, 6, 9] {
+    for &cap in caps {
+        for &level in levels {
             for p1 in payloads {
                 for shape in 0..3 {
                     counter += 1;
